@@ -20,6 +20,9 @@ EXPECT = {
     # case:                         fchk        molden      molekel     wfn         wfx
     "plain restricted":            ((P, P),     (P, P),     (P, P),     (P, P),     (P, P)),
     "plain unrestricted":          ((P, P),     (P, P),     (P, P),     (P, P),     (P, P)),
+    # a legal basis whose shells are not grouped atom by atom needs no conversion in any format: an object that is
+    # re-ordered for writing must be announced like every other conversion (and never without allow_changes)
+    "shells of the second atom listed first": ((P, P), (P, P), (P, P),    (P, P),     (P, P)),
     # "declared": an object lacking the attribute is refused (E) iff the writer declares it as required; otherwise the
     # writer has to accept it (P) -- objects carrying everything the documentation requires must not be refused
     "no orbitals":                 ("mo",       "mo",       "mo",       "mo",       "mo"),
@@ -47,6 +50,7 @@ FORMATS = ("fchk", "molden", "molekel", "wfn", "wfx")
 WHY = {
     "ECP centre (atcorenums != atnums)": "the Molekel reader computes the electron count as the sum of the atomic numbers minus the charge: with effective core charges the written occupations contradict it and the file is rejected",
     "ghost centre (atcorenums 0, atnums kept)": "a ghost centre written with its atomic number counts as a nucleus for the Molekel reader: the electron count it derives contradicts the written occupations and the file is rejected",
+    "shells of the second atom listed first": "the order of the shells is free in every format's object model; nothing has to be converted",
     "no orbitals, SS generalized contraction": "no format stores general contractions, with or without orbitals",
     "no orbitals, SP shell": "only FCHK can store SP shells, with or without orbitals",
     "ROHF, hole below": "FCHK stores electron counts, not occupations: only aufbau occupations (alpha AND beta) can be represented",
@@ -78,16 +82,28 @@ def _objects(prog):
         na = n if kind == "restricted" else n // 2
         return Rec(mo_cls, kind=kind, norba=(None if kind == "generalized" else na), norbb=(None if kind == "generalized" else na), occs=np.array(occs, dtype=float), coeffs=sym_array("c", (2, n)), energies=None, irreps=None, occs_aminusb=(None if aminusb is None else np.array(aminusb, dtype=float)))
 
+    def _on(sh_, icenter):
+        sh_.fields["icenter"] = icenter
+        return sh_
+
     plain_basis = lambda: basis(shell([0], ["c"]), shell([2], ["c"]))
     def mk(**kw):
         # every stored field of IOData: None, dictionaries empty (their documented type), unless the case says otherwise
         f = {name: ({} if name in ("extra", "atcharges", "atffparams", "moments", "one_ints", "two_ints", "one_rdms", "two_rdms") else None) for name in iocls.fields}
         f.update({"mo": mo(), "obasis": plain_basis(), "atnums": np.array([8, 1]), "_atcorenums": np.array([8.0, 1.0])})
         f.update(kw)
+        # the orbital coefficients have one row per basis function of the basis the case uses
+        if isinstance(f.get("mo"), Rec) and isinstance(f.get("obasis"), Rec) and f["mo"].fields.get("coeffs") is not None:
+            nb = 0
+            for sh_ in f["obasis"].fields["shells"]:
+                for l_, k_ in zip(np.asarray(sh_.fields["angmoms"]).tolist(), sh_.fields["kinds"]):
+                    nb += (l_ + 1) * (l_ + 2) // 2 if k_ == "c" else 2 * l_ + 1
+            f["mo"].fields["coeffs"] = sym_array("c", (nb, f["mo"].fields["coeffs"].shape[1]))
         return Rec(iocls, **f)
     return {
         "plain restricted": lambda: mk(),
         "plain unrestricted": lambda: mk(mo=mo("unrestricted", (1.0, 1.0, 0.0, 1.0, 0.0, 0.0))),
+        "shells of the second atom listed first": lambda: mk(obasis=basis(_on(shell([0], ["c"]), 1), _on(shell([0], ["c"]), 0), _on(shell([2], ["c"]), 1))),
         "no orbitals": lambda: mk(mo=None),
         "no basis": lambda: mk(obasis=None),
         "generalized orbitals": lambda: mk(mo=mo("generalized", (1.0, 1.0, 0.0, 0.0))),
